@@ -88,8 +88,8 @@ def _jkey_graph(g):
 
 
 def _classes(items):
-    """which known-divergence constructs does the graph contain: 'dict' (dict value with a key reference / call),
-    'tuple' (non-task non-key tuple with a key reference / call)"""
+    """which known-divergence constructs does the graph contain: 'tuple' (non-task non-key tuple with a key reference /
+    call; dict values are traversed: since ca6daad they are converted and substituted like list elements)"""
     keyset = {_jkey(k) for k, _ in items}
     found = set()
 
@@ -108,8 +108,8 @@ def _classes(items):
             for x in j["l"]:
                 go(x)
         elif "d" in j:
-            if any(has_ref_or_call(v, keyset) for _, v in j["d"]):
-                found.add("dict")
+            for _, v in j["d"]:
+                go(v)
         elif "q" in j:
             pass
     for _, v in items:
@@ -118,7 +118,6 @@ def _classes(items):
 
 
 SIG_VALUE = "{op}:value-changed:hidden-reference-in-non-task-tuple"
-SIG_DEPS = "{op}:deps-map-mismatch:reference-in-dict-value"
 
 
 def _has_dict(o):
@@ -151,7 +150,7 @@ def _check_graph(ctx, op, items, dsk, keys, out, deps, want, classes, deps_exact
         if "tuple" in classes:
             try:
                 bad = [k for k, g, w in zip(keys, got, want) if g != w]
-                if all(to_sexp(ref_eval(dsk, k, False, True)) != to_sexp(ref_eval(dsk, k, False, False)) for k in bad):
+                if all(to_sexp(ref_eval(dsk, k, True, True)) != to_sexp(ref_eval(dsk, k, True, False)) for k in bad):
                     sig = SIG_VALUE.format(op=op)
             except Exception:
                 sig = None
@@ -167,8 +166,6 @@ def _check_graph(ctx, op, items, dsk, keys, out, deps, want, classes, deps_exact
                 bad = (k, sorted(map(repr, deps[k])), sorted(map(repr, real)))
                 break
         sig = None
-        if bad is not None and bad[0] != "no entry" and "dict" in classes and _has_dict(out[bad[0]]):
-            sig = SIG_DEPS.format(op=op)
         if bad is None and deps_exact_keys and set(deps) != set(out):
             bad = ("extra entries", sorted(map(repr, set(deps) - set(out))))
         if bad is not None:
